@@ -17,7 +17,7 @@ import (
 func init() {
 	register(&propDef{
 		ID:          "C03",
-		Explanation: "Decides that the escaping tables and the routing into them are complete and correctly selected — not the behaviour of a JavaScript engine on the output: R1 the replacement tables applied inside string literals (the per-call table, the low-unicode table and the explicit switch arms of the escaper, all constant-evaluated from the source) map every code point of the required set — U+0000–U+001F, \" ' ` \\, < > &, / (a value starting with /script after a literal < in the author's own script text would otherwise end the element), U+2028, U+2029 and $ (the template-literal interpolation opener, because backtick literals use the same escaper) — to a replacement that does not contain the code point and is an escape of that same code point; R2 no non-test code in the module calls SetEscapeHTML, so every JSON encoder feeding a script position keeps encoding/json's HTML-safe escaping; R3 in SafeScript/SafeScriptInline the function name is used only after the name-pattern test replaced invalid names by a constant, the pattern's alphabet is within [$_a-zA-Z0-9.], every argument is written as jsonEncodeParam(arg) (and through the HTML escaper for the attribute form), JSFuncCall uses SafeScript and JSUnsafeFuncCall HTML-escapes its call; R4 the generator emits the in-literal escaper exactly on the branch where the script content is marked InsideStringLiteral, the sink writes the variable defined by that call, and the parser passes `delimiter != none` as that mark with the three JS quote characters as delimiters, and the script character reader has an alternative `\\`+any rune ahead of its catch-all (a backslash and the next character are one unit, so an escaped delimiter does not end the literal in the parser's view); R5 in the runtime selector both in-literal returns go through the replacement table and the bare return is the JSON encoding. R6 in the JSON script element (the function that writes a constant `<script` opener and hands its data to a json.Encoder) every write is a constant, an HTML-escaped attribute value or that encoder's output, so no already-encoded value (json.RawMessage, string) bypasses encoding/json's escaping of < > & U+2028 U+2029. NOT decided: that evaluating the emitted JavaScript yields an equal value; the parser's quote tracking on arbitrary JS (regex literals, comments in strings).",
+		Explanation: "Decides that the escaping tables and the routing into them are complete and correctly selected — not the behaviour of a JavaScript engine on the output: R1 the replacement tables applied inside string literals (the per-call table, the low-unicode table and the explicit switch arms of the escaper, all constant-evaluated from the source) map every code point of the required set — U+0000–U+001F, \" ' ` \\, < > &, / (a value starting with /script after a literal < in the author's own script text would otherwise end the element), U+2028, U+2029 and $ (the template-literal interpolation opener, because backtick literals use the same escaper) — to a replacement that does not contain the code point and is an escape of that same code point; R2 no non-test code in the module calls SetEscapeHTML, so every JSON encoder feeding a script position keeps encoding/json's HTML-safe escaping; R3 in SafeScript/SafeScriptInline the function name is used only after the name-pattern test replaced invalid names by a constant, the pattern's alphabet is within [$_a-zA-Z0-9.], every argument is written as jsonEncodeParam(arg) (and through the HTML escaper for the attribute form), JSFuncCall uses SafeScript and JSUnsafeFuncCall HTML-escapes its call; R4 the generator emits the in-literal escaper exactly on the branch where the script content is marked InsideStringLiteral, the sink writes the variable defined by that call, and the parser passes `delimiter != none` as that mark with the three JS quote characters as delimiters, and the script character reader has an alternative `\\`+any rune ahead of its catch-all (a backslash and the next character are one unit, so an escaped delimiter does not end the literal in the parser's view); R5 in the runtime selector both in-literal returns go through the replacement table and the bare return is the JSON encoding. R6 in the JSON script element (the function that writes a constant `<script` opener and hands its data to a json.Encoder) every write is a constant, an HTML-escaped attribute value or that encoder's output, so no already-encoded value (json.RawMessage, string) bypasses encoding/json's escaping of < > & U+2028 U+2029. NOT decided: that evaluating the emitted JavaScript yields an equal value; the parser's quote tracking on arbitrary JS (regex literals, comments in strings). R4 also: the script encoder is chosen per Go value from the literal state at that value, not once per element.",
 		Assumptions: []string{"encoding/json escapes < > & U+2028 U+2029 unless SetEscapeHTML(false)", "a JS engine decodes \\uXXXX, \\t \\n \\f \\r \\\\ \\/ inside string and template literals to the named code point"},
 		Trusted:     []string{"go/types", "go/parser", "x/tools go/packages, go/ssa", "encoding/json", "regexp/syntax"},
 		Run:         runC03,
@@ -662,6 +662,41 @@ func runC03(c *Ctx) {
 			if !isLiteralFlag(cond, 0) || len(is.Body.List) != 1 {
 				return true
 			}
+			// the return form: if flag { return A }; return B (or … else { return B })
+			if ret, isRet := is.Body.List[0].(*ast.ReturnStmt); isRet && len(ret.Results) == 1 {
+				thenVal, ok1 := constString(g.info, ret.Results[0])
+				defVal, ok2 := "", false
+				if eb, ok := is.Else.(*ast.BlockStmt); ok && len(eb.List) == 1 {
+					if r2, ok := eb.List[0].(*ast.ReturnStmt); ok && len(r2.Results) == 1 {
+						defVal, ok2 = constString(g.info, r2.Results[0])
+					}
+				} else if is.Else == nil {
+					// the statement that follows the if in its block
+					ast.Inspect(gf.Decl.Body, func(m ast.Node) bool {
+						if b, ok := m.(*ast.BlockStmt); ok {
+							for i, st := range b.List {
+								if st == ast.Stmt(is) && i+1 < len(b.List) {
+									if r2, ok := b.List[i+1].(*ast.ReturnStmt); ok && len(r2.Results) == 1 {
+										defVal, ok2 = constString(g.info, r2.Results[0])
+									}
+								}
+							}
+						}
+						return true
+					})
+				}
+				if ok1 && ok2 {
+					nsel++
+					insideVal, outsideVal := thenVal, defVal
+					if neg {
+						insideVal, outsideVal = defVal, thenVal
+					}
+					good := strings.HasSuffix(insideVal, "InsideStringLiteral") && strings.HasSuffix(outsideVal, "OutsideStringLiteral")
+					c.check(good, "C03.R4", gf.Key+"|escaper-by-literal-flag", c.pos(is.Pos()), fmt.Sprintf("InsideStringLiteral → %s; otherwise → %s", insideVal, outsideVal),
+						fmt.Sprintf("%s selects %s for content inside a string literal and %s outside: the two escapers are swapped (JSON quotes inside a literal / raw text outside one)", gf.Name, insideVal, outsideVal))
+				}
+				return true
+			}
 			as, ok := is.Body.List[0].(*ast.AssignStmt)
 			if !ok || len(as.Lhs) != 1 {
 				return true
@@ -670,12 +705,14 @@ func runC03(c *Ctx) {
 			// default value: the assignment to the same variable before the if
 			lid, _ := as.Lhs[0].(*ast.Ident)
 			defVal, ok2 := "", false
+			var defAt *ast.AssignStmt
 			if lid != nil {
 				ob := g.info.ObjectOf(lid)
 				ast.Inspect(gf.Decl.Body, func(m ast.Node) bool {
 					if a2, ok := m.(*ast.AssignStmt); ok && a2.Pos() < is.Pos() && len(a2.Lhs) == 1 {
 						if id2, ok := a2.Lhs[0].(*ast.Ident); ok && g.info.ObjectOf(id2) == ob {
 							defVal, ok2 = constString(g.info, a2.Rhs[0])
+							defAt = a2
 						}
 					}
 					return true
@@ -685,6 +722,22 @@ func runC03(c *Ctx) {
 				return true
 			}
 			nsel++
+			// the choice is made afresh for every item: when the test sits in a loop, so does the default it overrides
+			// (a default set once before the loop is never restored after the first in-literal item)
+			if defAt != nil {
+				sticky := false
+				ast.Inspect(gf.Decl.Body, func(m ast.Node) bool {
+					switch l := m.(type) {
+					case *ast.ForStmt, *ast.RangeStmt:
+						if l.Pos() <= is.Pos() && is.End() <= l.End() && !(l.Pos() <= defAt.Pos() && defAt.End() <= l.End()) {
+							sticky = true
+						}
+					}
+					return true
+				})
+				c.check(!sticky, "C03.R4", gf.Key+"|escaper-chosen-per-item", c.pos(is.Pos()), "the default escaper is set in the same round of the loop as the test",
+					fmt.Sprintf("%s sets the out-of-literal escaper once before the loop and only ever switches to the in-literal one inside it: after the first value inside a string literal every later value of the element, also outside any literal, is escaped as string content and written without quotes — it is then read as code", gf.Name))
+			}
 			insideVal, outsideVal := thenVal, defVal
 			if neg {
 				insideVal, outsideVal = defVal, thenVal
